@@ -37,7 +37,7 @@ NP_OF = {
     'C09': [('MsmTests', ['_calc_times'])],
     'C19': [('PlotCkTest', ['_split_array'])],
     'C07': [('MsmCummat', ['_get_cummat'])],
-    'C08': [('MsmCummat', ['_get_cummat'])],
+    'C08': [('MsmCummat', ['_get_cummat']), ('MsmTimes', ['estimate_times_list', 'estimate_times_hist']), ('StateTrajBase', ['state_to_idx'])],
 }
 for _pid, _mods in NP_OF.items():
     KERNELS_OF.setdefault(_pid, [])
@@ -45,7 +45,7 @@ for _pid, _mods in NP_OF.items():
 SOURCE_OF = {'MsmMsm': 'msm/msm.py', 'MdCorrections': 'md/corrections.py', 'MdTimescales': 'md/timescales.py',
              'MsmTimescales': 'msm/timescales.py', 'MdComparison': 'md/comparison.py', 'UtilsUtils': 'utils/_utils.py',
              'UtilsTests': 'utils/tests.py', 'MsmNorm': 'msm/msm.py', 'PlotCkTest': 'plot/_ck_test.py', 'MsmTests': 'msm/tests.py',
-             'StateTrajHS': 'statetraj.py', 'MsmCummat': 'msm/timescales.py'}
+             'StateTrajHS': 'statetraj.py', 'MsmCummat': 'msm/timescales.py', 'MsmTimes': 'msm/timescales.py', 'StateTrajBase': 'statetraj.py'}
 ATOL = 1e-8
 G = 1 << 53
 
@@ -192,6 +192,26 @@ def gen_cases(module, kernel, rng, n):
             yield {'k': kernel, 'args': [arr, rng.choice([0, 1, 1, 2, 3, 4, 5, 6, 7, 12, 30])], 'mode': 'py'}
         elif module == 'MsmTests':
             yield {'k': kernel, 'args': [rng.choice([0, 1, 1, 2, 3, 4, 5, 7, 10, 25]), rng.randint(0, 80)], 'mode': 'py'}
+        elif module == 'StateTrajBase':
+            labs = sorted(rng.sample(range(-6, 30), rng.randint(1, 6)))
+            yield {'k': kernel, 'args': [labs, rng.choice(labs + [rng.randint(-8, 32)])], 'mode': 'py'}
+        elif module == 'MsmTimes':
+            labs = sorted(rng.sample(range(-6, 30), rng.randint(2, 6)))
+            pool = list(labs)
+            rng.shuffle(pool)
+            a_ = rng.randint(1, len(pool) - 1)
+            S, F = pool[:a_], pool[a_:a_ + rng.randint(1, len(pool) - a_)]
+            r_ = rng.random()
+            if r_ < 0.08:
+                F = F + [S[0]]                       # overlap
+            elif r_ < 0.16:
+                S = S + [max(labs) + 3]              # absent state
+            elif r_ < 0.3:
+                S = S + [S[0]]                       # duplicates are merged by np.unique
+            rng.shuffle(S)
+            keys = rng.sample(range(1, 40), rng.randint(0, 6)) if rng.random() < 0.9 else []
+            d = [[k_, rng.randint(1, 5)] for k_ in keys]
+            yield {'k': kernel, 'args': [labs, rng.choice([1, 2, 3, 10]), S, F, rng.randint(1, 500), False], 'dict': d, 'mode': 'py'}
         elif module == 'MsmCummat':
             import numpy as np
             n = rng.randint(1, 6)
@@ -304,6 +324,42 @@ def real_one(module, case):
         except Exception as e:  # noqa
             inputs['oracle'] = {'peq_err': core.err_name(e)}
         fn = None
+    elif module == 'StateTrajBase':
+        inputs, fn = None, None
+    elif module == 'MsmTimes':
+        # `_estimate_times` with a stub estimator; the three oracles (start choice, cumulative matrix, estimator) are recorded
+        import msmhelper as mh
+        labs, lag, S, F, steps, _flag = case['args']
+        rec = {}
+        dummy = (np.array([[1.0]]), np.array([[0]], dtype=np.int64))
+
+        def stub(cummat, start, states_from, states_to, steps):
+            rec['estimator'] = [[int(k_), int(v_)] for k_, v_ in case['dict']]
+            rec['est_args'] = [int(start), [int(x) for x in states_from], [int(x) for x in states_to], int(steps)]
+            return {int(k_): int(v_) for k_, v_ in case['dict']}
+
+        def _run():
+            o_cm, o_ch = mod._get_cummat, np.random.choice
+
+            def choice(xs):
+                rec['choice'] = int(xs[0] if len(xs) else 0)
+                return xs[0]
+
+            def gc(trajs, lagtime):
+                rec['cummat'] = [[['1']], [[0]]]
+                return dummy
+            mod._get_cummat, np.random.choice = gc, choice
+            try:
+                r = mod._estimate_times(trajs=mh.StateTraj([np.array(labs, dtype=np.int64)]), lagtime=lag, start=S, final=F, steps=steps,
+                                        estimator=stub, return_list=(case['k'] == 'estimate_times_list'))
+            finally:
+                mod._get_cummat, np.random.choice = o_cm, o_ch
+            if case['k'] == 'estimate_times_list':
+                return [int(x) for x in r]
+            return [[core.rat_str(float(v)) for v in r[0]], [int(v) for v in r[1]]]
+        case = dict(case, _run=_run)
+        inputs = {'args': [labs, lag, S, F, steps, bool(numba.config.DISABLE_JIT)], '_rec2': rec}
+        fn = None
     elif module == 'MsmNorm' and case['k'] == 'equilibrium_population':
         # the eigen-solver is an oracle of the translated function: record what it returned in the real run
         mat = np.array(case['floats'], dtype=np.float64)
@@ -399,6 +455,11 @@ def real_one(module, case):
             return [int(v) for v in call(a[0], a[1])]
         if module == 'StateTrajHS':
             return [[core.rat_str(float(v)) for v in row] for row in case['_obj']._estimate_markov_model(case['_msm_i'])]
+        if module == 'StateTrajBase':
+            import msmhelper as mh
+            return int(mh.StateTraj([np.array(a[0], dtype=np.int64)]).state_to_idx(a[1]))
+        if module == 'MsmTimes':
+            return case['_run']()
         if module == 'MsmCummat':
             # the function estimates its matrix from trajectories: feed the chosen matrix through a stub of the estimator
             msm = np.array(case['floats'], dtype=np.float64)
@@ -446,6 +507,9 @@ def real_one(module, case):
     except Exception as e:  # noqa
         out = {'err': core.err_name(e)}
     if inputs is not None:
+        rec2 = inputs.pop('_rec2', None)
+        if rec2 is not None:
+            inputs['oracle'] = {k_: rec2[k_] for k_ in ('choice', 'cummat', 'estimator') if k_ in rec2}
         rec = inputs.pop('_rec', None)
         if rec is not None:
             if 'eig' in rec:
@@ -547,6 +611,8 @@ def same(case, real, gen):
                 if abs(fx - fy) > Fraction(1, 10 ** 14):
                     return False
         return True
+    if k == 'estimate_times_hist':
+        return r[1] == g[1] and len(r[0]) == len(g[0]) and all(abs(Fraction(x) - Fraction(y)) <= Fraction(1, 10 ** 15) for x, y in zip(r[0], g[0]))
     if k == 'equilibrium_population':
         return len(r) == len(g) and all(abs(Fraction(x) - Fraction(y)) <= Fraction(1, 10 ** 12) for x, y in zip(r, g))
     if k in ('row_normalize_matrix', '_estimate_markov_model') and case.get('np'):
